@@ -55,6 +55,8 @@ def call_oracle(c):
         want = ast.dump(wt.body)
         if ast.dump(node) != want:
             return 'argument printed as %s, on its own it prints as %s' % (ast.unparse(node)[:80], alone[:80])
+    if '...and' in ' '.join(PC.comments_of(c.text)):
+        return None          # truncated on request (max_seq_len): the arguments were compared above
     try:
         got = PC.eval_text(c.text)
     except Exception as e:
@@ -78,7 +80,11 @@ def call_cases(tier):
         t = ('call', r.choice(['make', 'Thing', 'f']), args, kws)
         k += 1
         w = r.choice([1, 10, 30, 79, 200])
-        out.append(('call', t, dict(width=w, ribbon_width=r.choice([w, max(1, w // 2)]), indent=r.choice([1, 4, 8]))))
+        cfg = dict(width=w, ribbon_width=r.choice([w, max(1, w // 2)]), indent=r.choice([1, 4, 8]))
+        if k % 3 == 0:
+            # the remaining settings reach the arguments unchanged as well
+            cfg['max_seq_len'] = r.choice([1, 2, 3, None])
+        out.append(('call', t, cfg))
     return out
 
 
